@@ -304,7 +304,6 @@ pub struct Exec {
     pub states: HashSet64,
     pub transcript: Option<Transcript>,
     pub at: usize,
-    pub solves: u64,
 }
 
 fn build_rx(kind: RxKind, threshold: Option<u32>, oti: &Oti, cfg: &ObjectTransmissionInformation, ks: &[u32]) -> RxImpl {
@@ -595,7 +594,6 @@ impl Exec {
                 None
             },
             at: 0,
-            solves: 0,
         };
         if let Some(t) = ex.transcript.as_mut() {
             let ser = ex.cfg.serialize();
